@@ -14,6 +14,8 @@ ENGINES = {
     "signersim": dict(pkg="./sims/signersim", bin="signersim.test", test="^TestWorker$"),
     "partsim": dict(pkg="./sims/partsim", bin="partsim.test", test="^TestWorker$"),
     "execsim": dict(pkg="./sims/execsim", bin="execsim.test", test="^TestWorker$"),
+    # the reference go-ethereum and the in-tree copy both carry libsecp256k1: built with the pure-Go fallback of both
+    "triesim": dict(pkg="./sims/triesim", bin="triesim.test", test="^TestWorker$", tags="verif nocgo", cgo=False),
 }
 
 # property: list of parts (engine, quick_runs, share of the thorough time budget); thorough budget in seconds
@@ -31,6 +33,7 @@ PARTS = {
     "C05": [("execsim", 700, 1.0)],
     "C09": [("execsim", 700, 1.0)],
     "C06": [("execsim", 160, 1.0)],
+    "C11": [("triesim", 6000, 1.0)],
     "C03": [("signersim", 1200, 0.5), ("csim", 120, 0.5)],
 }
 
@@ -38,6 +41,7 @@ REAL = {
     "execsim": ["gemmill Angine (buildState, assembleStateMachine, ConnectApp, RecoverFromCrash, plugin glue)", "gemmill/state ExecBlock/ApplyBlock/Save, gemmill/blockchain store, pbft ConsensusState.ValidateBlock",
                 "chain/app/evm EVMApp (OnExecute, parallel signature verifier with its real goroutines, OnCommit, SaveReceipts, key-value history, Query), transaction pool construction",
                 "eth/core state transition, VM incl. precompiles and the governance precompile, StateDB, trie, rlp"],
+    "triesim": ["eth/trie (Trie insert/delete/get/hash/commit, Database commit, Prove/VerifyProof)", "eth/core/state (StateDB, state objects, journal, snapshots, IntermediateRoot, Commit)", "eth/rlp, eth/crypto keccak"],
     "partsim": ["gemmill/types PartSet/Part (NewPartSetFromData, NewPartSetFromHeader, AddPart, GetReader)", "go-merkle simple tree and proofs", "go-hash"],
     "signersim": ["gemmill/types PrivValidator (SignVote, SignProposal, signBytesHRS, save, LoadPrivValidator)", "go-common WriteFileAtomic on a real file", "go-wire JSON of the signer file"],
     "valsetsim": ["gemmill/types ValidatorSet/Validator (IncrementAccum, Copy, Add/Update/Remove, Proposer, Hash)", "go-wire binary persistence round trip", "go-common heap"],
@@ -47,6 +51,7 @@ REAL = {
 }
 STUB = {
     "execsim": ["LevelDB -> simdisk (process-death durability)", "consensus: the harness builds the blocks and signs the commits with the validator key; replicas execute them through the three calls of the fast-sync executor (SaveBlock, ApplyBlock, Save)", "p2p, RPC, query-cache plugin (not loaded)"],
+    "triesim": ["LevelDB -> simdisk (batch = one atomic write; crash = death before batch k of a commit; injected batch write error)", "no clock, no concurrency: the fault dimension is reopen / crash-reopen / write error", "oracle: reference go-ethereum v1.8.27 trie and StateDB in lockstep, plus a map model"],
     "partsim": ["no node: sender and receiver part sets with an adversarial network in between (reorder, duplicate, one mutation per delivered copy)"],
     "signersim": ["no node, no clock, no goroutines: the signer is driven directly; process death = panic out of the fault point before a file operation, everything written before it stays"],
     "valsetsim": ["no node, no clock: replicas are validator-set objects driven through one history by different paths"],
@@ -334,7 +339,7 @@ def check_parts(prop, tier, seed, parts, level="exploration", rule=None, extra_e
         rc = 0
         for (engine, quick_runs, share) in parts:
             e = ENGINES[engine]
-            binp = drv.build_test(s, e["pkg"], e["bin"])
+            binp = drv.build_test(s, e["pkg"], e["bin"], tags=e.get("tags", "verif"), cgo=e.get("cgo", True))
             outdir = os.path.join(s, "out-" + engine)
             if tier == "quick":
                 nruns, budget = quick_runs, 900
@@ -392,7 +397,7 @@ def setup():
     s = drv.prepare("setup-%d" % os.getpid())
     try:
         for e in ENGINES.values():
-            drv.build_test(s, e["pkg"], e["bin"])
+            drv.build_test(s, e["pkg"], e["bin"], tags=e.get("tags", "verif"), cgo=e.get("cgo", True))
     finally:
         drv.cleanup(s)
     return 0
@@ -404,7 +409,7 @@ def replay(path):
     s = drv.prepare("replay-%d" % os.getpid())
     try:
         e = ENGINES[engine]
-        binp = drv.build_test(s, e["pkg"], e["bin"])
+        binp = drv.build_test(s, e["pkg"], e["bin"], tags=e.get("tags", "verif"), cgo=e.get("cgo", True))
         out = os.path.join(s, "replay-out.json")
         if rp.get("from_seed"):
             # regenerate the run from its seed; the violation is the abort of the process itself
@@ -448,7 +453,7 @@ def capture(args):
         best = None
         for (engine, _, _) in PARTS[prop]:
             e = ENGINES[engine]
-            binp = drv.build_test(s, e["pkg"], e["bin"])
+            binp = drv.build_test(s, e["pkg"], e["bin"], tags=e.get("tags", "verif"), cgo=e.get("cgo", True))
             keep = [k for k in known_keys() if k != "%s/%s/%s" % (prop, oracle, key)]
             results, failures = run_workers(binp, e["test"], prop, default_seed(prop, "quick") + 77, nruns, 900, os.path.join(s, "cap-" + engine),
                                             extra_env=dict(VERIF_KNOWN=",".join(keep)))
